@@ -43,3 +43,7 @@ Definition tp_sub (p : timepar) (x : Q) : res Q := bind (tp_values p) (fun y => 
 
 (* physical length of a unit in days *)
 Definition unit_days (u : unit_t) : Q := match time_units_gen u with Some q => q | None => 0 end.
+
+(* in-place forms (TimePar.__iadd__ / __isub__): the operand is added to v, in the parameter's OWN unit *)
+Definition tp_iadd (p : timepar) (x : Q) := tp_set_v p (tp_v p + x).
+Definition tp_isub (p : timepar) (x : Q) := tp_set_v p (tp_v p - x).
